@@ -60,6 +60,12 @@ def slots(spec, path=()):
         out += slots(spec["value"], path + (("numerator",),))
     elif k in ("SparselyBin", "CentrallyBin", "IrregularlyBin", "Stack"):
         out.append(path + (("nanflow",),))
+        if k != "SparselyBin":
+            # the bins of CentrallyBin / IrregularlyBin / Stack exist from construction on: (key, sub-aggregator) pairs
+            nb = len(spec["centers"]) if k == "CentrallyBin" else len(spec["edges"]) + 1
+            for i in range(nb):
+                out.append(path + (("bins", i),))
+            out += slots(spec["value"], path + (("bins", 0),))
     return out
 
 
@@ -69,6 +75,8 @@ def get_at(obj, path):
             obj = obj.pairs[step[1]]
         elif step[0] == "values":
             obj = obj.values[step[1]]
+        elif step[0] == "bins":
+            obj = obj.bins[step[1]][1]
         else:
             obj = getattr(obj, step[0])
     return obj
@@ -85,6 +93,10 @@ def set_at(root, path, new):
         parent.values = tuple(vals) if isinstance(parent.values, tuple) else vals
         if isinstance(parent, hg.Branch):
             setattr(parent, "i%d" % step[1], new)
+    elif step[0] == "bins":
+        bins = list(parent.bins)
+        bins[step[1]] = (bins[step[1]][0], new)
+        parent.bins = tuple(bins) if isinstance(parent.bins, tuple) else bins
     else:
         setattr(parent, step[0], new)
 
@@ -182,7 +194,9 @@ class C16Exec(execs.PyExec):
                     pass
             set_at(t, [tuple(s) for s in p["dst"]], obj)
             ids = content_ids(t)
-            aliased = len(ids) != len(set(ids)) or cyclic(t)
+            # the harness installed one object at two positions itself: that is what "aliased" means here, whatever the
+            # library's own `children` lists report
+            aliased = len(ids) != len(set(ids)) or cyclic(t) or [tuple(s) for s in p["src"]] != [tuple(s) for s in p["dst"]]
         elif p["kind"] == "template":
             # two sparse containers sharing one (never filled) template object must stay fillable
             tm = hg.Count()
